@@ -118,6 +118,7 @@ pub fn c27_emit(seed: u64, n: usize) -> i32 {
         #[allow(clippy::arc_with_non_send_sync)]
         let adapter = Arc::new(TableAdapter { inner: GraphAdapter::new(case.world.clone()), tables: tables.clone() });
         let expected = match engine::execute(adapter, compiled.iq.clone(), engine::args_to_engine(&case.args), 400) {
+            ExecOutcome::Budget => continue,
             ExecOutcome::Rows(rows) => {
                 if rows.len() >= 400 {
                     continue;
